@@ -53,7 +53,7 @@ def rstmt(s):
     if k == "endif":
         return ".endif"
     if k == "define":
-        return (".define %s 0x%x" if s["n"] == "DH" else ".define %s %d") % (s["n"], s["v"])
+        return (".define %s 0x%x" if s["n"] in ("DH", "DW", "DM") else ".define %s %d") % (s["n"], s["v"] & 0xffffffff)
     if k == "label":
         return "%s:" % s["n"]
     raise ValueError(k)
